@@ -22,6 +22,10 @@ CHECKS = {
          "Every nest (depth 2 quick / 3 thorough) of try/catch/finally forms, loops, calls and blocks with every leaf action (throws of 4 value kinds, 6 failing built-ins, deep callee throws, return, break, continue) and every sequential pair of nests, run on the real VM and compared with M-eval's block trace and outcome.",
          "Four open findings (known_findings.json) are attributed by trigger predicate; the trigger-free population must agree exactly. Bounded by nest depth.",
          "5/C08"),
+ "C07": ("bounded-exhaustive program enumeration vs the reference evaluator M-eval (class chain walks, lexical super)",
+         "Every class hierarchy of depth 1-3 with per-class choices of method m (absent/plain/super call/super value), n (calls self.m), four constructor forms, probed on instances of the two most derived classes with calls, bound values, arities, unknown members, shadowing fields, type/derives; static methods and Self; local classes; every non-class superclass; construction rules. Run on the real VM and compared with M-eval.",
+         "Trusts M-eval's class model (Appendix A). Bounded: depth 3, two method names.",
+         "5/C07"),
 }
 NOT_YET = "check not built yet in this revision of /verif (work in progress; see DESIGN.md section 10)"
 
